@@ -7,6 +7,8 @@ pgtroot <num name> <rootopt 0|1> <swapper st> <hex|-> <caps_kv 0|1> <rd st> <hex
                                                                addrxlat_sys_os_init, aarch64 / riscv64 Linux
 arm <rootknown 0|1> <swapper st> <hex|-> <stext st> <hex|-> <caps 0|1> <rd st> <hex|-> <phys_base 0|1>
                                                                addrxlat_sys_os_init, arm Linux
+alloc <size> <got 0|1>                                         kdump_set_attr(addrxlat.ostype) on an s390x dump whose os_info
+                                                               claims a VMCOREINFO of <size> bytes; got = malloc succeeded
 ```
 A part is given by its status name and the message it leaves (hex).  Output:
 `> <status name> | <error string, "-" when empty>`.
@@ -63,6 +65,8 @@ partial def loop (h : IO.FS.Stream) : IO Unit := do
   | ["arm", rk, s1, h1, s2, h2, caps, s3, h3, pb] =>
     IO.println (out xNames (mapLinuxArm (b rk) (part xNames s1 h1) (part xNames s2 h2) (b caps) (part xNames s3 h3) (b pb)
       Part.ok Part.ok (clearError [])))
+  | ["alloc", size, got] =>
+    IO.println (out kNames (s390OsInfoAlloc size.toNat! (b got) "Cannot allocate memory" Part.ok []))
   | _ => IO.println "> bad-op"
   loop h
 
